@@ -98,6 +98,12 @@ def register(reg):
         reg.add(Contract("schedule.%s.__len__" % cls, self_class=cls, params=[("self", "obj")],
                          returns="int", ensures=[("len_is_steps_covered", "result == self.args[%d] - self.args[%d]" % (i1, i0))],
                          frame=[], props=("C18",)))
+        # __iter__: exactly the steps covered, ascending for Forward, descending for Reverse
+        # (the enumeration order of range() itself is CPython semantics)
+        reg.add(Contract("schedule.%s.__iter__" % cls, self_class=cls, params=[("self", "obj")],
+                         yields_range=(("self.args[%d]" % i0, "self.args[%d]" % i1, 1) if cls == "Forward"
+                                       else ("self.args[%d] - 1" % i1, "self.args[%d] - 1" % i0, -1)),
+                         frame=[], props=("C18",)))
         reg.add(Contract("schedule.%s.__contains__" % cls, self_class=cls,
                          params=[("self", "obj"), ("step", "int")], returns="bool",
                          ensures=[("contains_iff_covered",
